@@ -120,6 +120,12 @@ type ContractFile struct {
 	Specs      []*SpecFunc
 	Axioms     []*Axiom
 	Funcs      []*FuncContract
+	Ghosts     []GhostField
+}
+
+// GhostField: "ghost field T.name sort" adds a specification-only component to a named struct type.
+type GhostField struct {
+	Type, Name, Sort string
 }
 
 // ---------- lexer
@@ -588,7 +594,7 @@ func (p *parser) parsePrimary() (Expr, error) {
 // ---------- file-level parser
 
 var clauseKW = map[string]bool{
-	"func": true, "spec": true, "uf": true, "axiom": true, "lemma": true, "pred": true,
+	"func": true, "spec": true, "uf": true, "ghost": true, "axiom": true, "lemma": true, "pred": true,
 	"requires": true, "ensures": true, "assigns": true, "loop": true, "safety": true,
 	"props": true, "trusted": true, "inline": true, "pure": true, "maypanic": true, "nobody": true,
 	"extern": true, "opaque": true, "uses": true, "allocbound": true, "forbids": true, "decreases": true, "invariant": true, "defines": true, "wraparound": true, "reveals": true,
@@ -657,6 +663,14 @@ func ParseContractFile(path string) (*ContractFile, error) {
 			}
 			cf.Funcs = append(cf.Funcs, fc)
 			cur = fc
+		case "ghost":
+			f := strings.Fields(rc.text)
+			if len(f) != 3 || f[0] != "field" || !strings.Contains(f[1], ".") || sortOfSpecType(f[2]) == nil {
+				return nil, fail(fmt.Errorf("expected: ghost field Type.name int|bool|seq"))
+			}
+			j := strings.IndexByte(f[1], '.')
+			cf.Ghosts = append(cf.Ghosts, GhostField{f[1][:j], f[1][j+1:], f[2]})
+			cur = nil
 		case "spec", "pred", "uf":
 			sf, err := parseSpecFunc(rc.kw, rc.text)
 			if err != nil {
